@@ -1,4 +1,4 @@
-import CollectionsC.Proofs.ArrayStep
+import CollectionsC.Proofs.ArrayZip
 /-! # C07 (array part) — array iterators traverse completely and in order; one-step mutation is safe
 
 Statements only (helpers: `Proofs/ArrayIter.lean`, `Proofs/ArrayStep.lean`).  The concrete cursor is
@@ -11,7 +11,7 @@ iterator-driving program over next/remove/add/replace/index — not only contrac
 every element, every allocator schedule, every growth function. -/
 namespace CC.Properties.C07Array
 open CC
-open CC.Spec.Seq (IterOp Cursor ZipCursor Out)
+open CC.Spec.Seq (IterOp Cursor ZipCursor Out ZipOp ZOut)
 
 /-- `cc_array_iter_init`: everything is still to visit -/
 theorem iter_init (a : Arr) : Arr.Sim a {} { done := [], todo := a.abs, removed := false } := Arr.sim_init a
@@ -120,6 +120,36 @@ theorem zip_add_sim (a1 a2 : Arr) (it : ArrIter) (z : ZipCursor) (x y : Nat) (m 
 theorem zip_index_sim (a1 a2 : Arr) (it : ArrIter) (z : ZipCursor) (hs : Arr.ZSim a1 a2 it z) :
     Arr.iterIndex it = z.index := Arr.zipIndex_sim a1 a2 it z hs
 
+/-- **every zip-iterator program refines the ideal lock-step cursor**: for every program over
+zip next/remove/add/replace/index on two arrays (not only contract-respecting ones), every refusal
+schedule and every pair of growth functions: same reports, both final contents and the cursor position
+as the ideal run (told which `zip_iter_add` calls were blocked), both invariants preserved, ledger
+balanced, no fault.  A blocked `zip_iter_add` leaves both contents and the cursor untouched (A8). -/
+theorem zip_program_refines (ops : List ZipOp) (a1 a2 : Arr) (it : ArrIter) (z : ZipCursor) (m : Mem)
+    (h1 : a1.Inv) (h2 : a2.Inv) (hs : Arr.ZSim a1 a2 it z) :
+    (Arr.zipRun a1 a2 it ops m).1 = (z.run ops ((Arr.zipRun a1 a2 it ops m).1.map ZOut.blocked)).1 ∧
+    Arr.ZSim (Arr.zipRun a1 a2 it ops m).2.1 (Arr.zipRun a1 a2 it ops m).2.2.1 (Arr.zipRun a1 a2 it ops m).2.2.2.1
+      (z.run ops ((Arr.zipRun a1 a2 it ops m).1.map ZOut.blocked)).2 ∧
+    (Arr.zipRun a1 a2 it ops m).2.1.Inv ∧ (Arr.zipRun a1 a2 it ops m).2.2.1.Inv ∧
+    (Arr.zipRun a1 a2 it ops m).2.2.2.2.live = m.live ∧ (Arr.zipRun a1 a2 it ops m).2.2.2.2.fault = m.fault := by
+  induction ops generalizing a1 a2 it z m with
+  | nil => exact ⟨rfl, hs, h1, h2, rfl, rfl⟩
+  | cons op ops ih =>
+    obtain ⟨s1, s2, s3, s4, _, _, s7, s8, _⟩ := Arr.zipStep_sim a1 a2 it z op m h1 h2 hs
+    obtain ⟨i1, i2, i3, i4, i5, i6⟩ := ih (Arr.zipStep a1 a2 it op m).2.1 (Arr.zipStep a1 a2 it op m).2.2.1
+      (Arr.zipStep a1 a2 it op m).2.2.2.1 _ (Arr.zipStep a1 a2 it op m).2.2.2.2 s3 s4 s2
+    simp only [Arr.zipRun, ZipCursor.run, List.map_cons, List.headD_cons, List.tail_cons]
+    exact ⟨by rw [← i1, ← s1], i2, i3, i4, by rw [i5, s7], by rw [i6, s8]⟩
+
+/-- a zip call that reports an error — nothing yielded yet, already removed, end reached, growth
+refused — leaves both contents, the second array and the cursor as they were -/
+theorem zip_error_is_inert (op : ZipOp) (a1 a2 : Arr) (it : ArrIter) (z : ZipCursor) (m : Mem)
+    (h1 : a1.Inv) (h2 : a2.Inv) (hs : Arr.ZSim a1 a2 it z) (st : Stat)
+    (e1 : (Arr.zipStep a1 a2 it op m).1.st = some st) (e2 : st ≠ .ok) :
+    (Arr.zipStep a1 a2 it op m).2.1.abs = a1.abs ∧ (Arr.zipStep a1 a2 it op m).2.2.1 = a2 ∧
+    (Arr.zipStep a1 a2 it op m).2.2.2.1 = it :=
+  (Arr.zipStep_sim a1 a2 it z op m h1 h2 hs).2.2.2.2.2.2.2.2 st e1 e2
+
 /-! ## The property in its own vocabulary (facts about the ideal cursor) -/
 
 /-- a fresh cursor driven by `next` alone yields every element exactly once, in order, then the end -/
@@ -189,6 +219,21 @@ example :
     a.Inv ∧ r.1.map (·.val) = [some 10, none, some 20, some 20, some 1, some 30, some 30, none] ∧
     r.1.getLast?.map (·.st) = some (some .iterEnd) ∧ r.2.1.abs = [10, 15, 99] ∧ r.2.1.capacity = 6 ∧
     r.2.1.Inv ∧ r.2.2.2.fault = false ∧ r.2.2.2.live = 2 := by
+  decide
+
+/-! a zip program over a full array of 3 and an array of 2 with spare room: next, add (first array
+grows 3 → 6), next, remove, replace (after a removal it hits the pair *before* the removed one, as the
+ideal cursor says), next (end: the shorter array is exhausted) -/
+example :
+    let a1 : Arr := Arr.mk 3 3 [10, 20, 30] (fun c => 2 * c) .conf
+    let a2 : Arr := Arr.mk 2 4 [1, 2, 0, 0] (fun c => 2 * c) .conf
+    let r := Arr.zipRun a1 a2 {} [.next, .add 15 5, .next, .remove, .index, .replace 7 7, .next] { live := 4 }
+    a1.Inv ∧ a2.Inv ∧
+    r.1.map (·.val) = [some (10, 1), none, some (20, 2), some (20, 2), none, some (15, 5), none] ∧
+    r.1.map (·.idx) = [none, none, none, none, some 1, none, none] ∧
+    r.1.map (·.st) = [some .ok, some .ok, some .ok, some .ok, none, some .ok, some .iterEnd] ∧
+    r.2.1.abs = [10, 7, 30] ∧ r.2.2.1.abs = [1, 7] ∧ r.2.1.capacity = 6 ∧ r.2.2.1.capacity = 4 ∧
+    r.2.2.2.2.fault = false ∧ r.2.2.2.2.live = 4 := by
   decide
 
 end CC.Properties.C07Array
